@@ -62,8 +62,14 @@ func Pool(name string, args []string, n int, jobs []string, env ...string) []Poo
 		wg.Add(1)
 		go func(w int) {
 			defer wg.Done()
+			pending, attempts := -1, 0
 			for {
-				i := take()
+				i := pending
+				pending = -1
+				if i < 0 {
+					i = take()
+					attempts = 0
+				}
 				if i < 0 {
 					return
 				}
@@ -100,14 +106,27 @@ func Pool(name string, args []string, n int, jobs []string, env ...string) []Poo
 					wd.Stop()
 					if err != nil {
 						cmd.Wait()
-						res[i] = PoolResult{Job: jobs[i], Died: true, TimedOut: atomic.LoadInt32(&timedOut) == 1, Stderr: errb.String()}
+						to := atomic.LoadInt32(&timedOut) == 1
+						stderr := errb.String()
+						if ExternallyKilled(cmd.ProcessState, to, stderr) {
+							// not this job's doing (the host's out-of-memory killer, an operator): run the job again on a fresh worker
+							if attempts < 2 {
+								attempts++
+								pending = i
+								time.Sleep(3 * time.Second)
+								break
+							}
+							stderr += "\n" + ExternalKillMarker
+						}
+						res[i] = PoolResult{Job: jobs[i], Died: true, TimedOut: to, Stderr: stderr}
 						break
 					}
 					res[i] = PoolResult{Job: jobs[i], Out: strings.TrimRight(line, "\n")}
 					i = take()
+					attempts = 0
 				}
 				stdin.Close()
-				if i < 0 {
+				if i < 0 && pending < 0 {
 					cmd.Wait()
 					return
 				}
